@@ -199,8 +199,11 @@ def load_known():
         return json.load(f)['findings']
 
 
+OUT_DIR = os.environ.get('VERIF_EVIDENCE_DIR')   # mutant runs write evidence/replays elsewhere
+
+
 def evidence_path(pid):
-    return os.path.join(VERIF, 'evidence', f'{pid}.json')
+    return os.path.join(OUT_DIR or os.path.join(VERIF, 'evidence'), f'{pid}.json')
 
 
 def write_evidence(mod, ctx, res, wall, n_viol, known_lines):
@@ -230,7 +233,7 @@ def write_evidence(mod, ctx, res, wall, n_viol, known_lines):
         'wall_s': round(wall, 2),
         'violations': n_viol,
     }
-    os.makedirs(os.path.join(VERIF, 'evidence'), exist_ok=True)
+    os.makedirs(os.path.dirname(evidence_path(mod.ID)), exist_ok=True)
     tmp = evidence_path(mod.ID) + '.tmp'
     with open(tmp, 'w') as f:
         json.dump(ev, f, indent=1, sort_keys=True, default=str)
@@ -338,7 +341,7 @@ def main(argv=None):
     shown = 0
     nondet = False
     for key, first, n in violations:
-        rdir = os.path.join(VERIF, 'replays', mod.ID)
+        rdir = os.path.join(OUT_DIR, 'replays', mod.ID) if OUT_DIR else os.path.join(VERIF, 'replays', mod.ID)
         os.makedirs(rdir, exist_ok=True)
         path = os.path.join(rdir, h(key) + '.json')
         with open(path, 'w') as f:
